@@ -360,7 +360,16 @@ def check_scoped_feed_forward(ctx, cirq):
     for i in range(n):
         g = c12.Gen(rng)
         # codes with: a measurement in the middle body (always), the same name measured in the outer body / at top level, ids at every level
-        moments = g.scoped_template(rng.randrange(8192) | (1 << 7) if rng.random() < 0.5 else None)
+        # (bits of the template code: 5 = the middle loop has repetition ids, 7 = a key map renames the key in the middle loop, 8 = the same
+        # name is also measured in the outer body, 11 = and at top level)
+        code = None
+        if rng.random() < 0.6:
+            code = (rng.randrange(8192) | (1 << 5) | (1 << 8)) & ~(1 << 7)
+        moments = g.scoped_template(code)
+        # what the conditioned operations did is read out at the end
+        i = g.next_id; g.next_id += 1
+        g.gates[i] = ('meas', None)
+        moments = moments + [[{'op': {'id': i, 'q': [0, 1, 2], 'mkey': {'path': [], 'name': 'zz'}, 'conds': []}}]]
         cases.append((g, moments))
     specs = ctx.driver.ask([{'p': 'C12', 'op': 'unroll', 'moments': m} for _, m in cases])
     reqs, meta = [], []
